@@ -103,11 +103,26 @@ def fm_unsat(cons, limit=3000):
 _ENT_MEMO = {}
 
 
+def tighten(g):
+    """integer tightening of g >= 0: divide by the gcd of the (integer) coefficients and round the constant down"""
+    from math import gcd, floor
+    cs = list(g.t.values())
+    if not cs or any(c.denominator != 1 for c in cs):
+        return g
+    d = 0
+    for c in cs:
+        d = gcd(d, abs(int(c)))
+    if d <= 1:
+        return g
+    return Lin({a: c / d for a, c in g.t.items()}, floor(g.c / d))
+
+
 def entails(facts, goal):
     """facts |= goal >= 0 over the integers (goal's negation is goal <= -1).
     Only the facts connected to the goal through shared atoms are handed to the elimination; results are memoised."""
     if goal.is_const():
         return goal.c >= 0
+    goal = tighten(goal)
     facts = list(facts)
     atoms = set(goal.t)
     rel = []
